@@ -27,7 +27,7 @@ def spParseOp (s : String) : Option Op :=
     | _ => none
 
 def spCancel (sdk : Bool) (p : Pool) : Option Pool :=
-  if sdk then cancelDefault 128 p else some (cancel p)
+  if sdk then cancelSdk 128 p else some (cancel p)
 
 def spStep (sdk : Bool) (p : Pool) (o : Op) : Option Pool :=
   if sdk then stepSdk 128 p o else step 128 p o
